@@ -1,4 +1,186 @@
-// harnesses for this file are added below
+// Executable mirrors of the Verus contracts of unit u01 (lightning/src/sign/tx_builder.rs), used for
+// counterexample search / native replay when a Verus obligation fails, and as bounded Kani harnesses.
 use super::*;
 include!("/verif/hooks/common.rs");
-pub fn replay(_name: &str, _a: &[u128]) -> Option<Outcome> { None }
+
+pub fn ct(kind: u8) -> ChannelTypeFeatures {
+	match kind % 3 {
+		0 => ChannelTypeFeatures::only_static_remote_key(),
+		1 => ChannelTypeFeatures::anchors_zero_htlc_fee_and_dependencies(),
+		_ => ChannelTypeFeatures::anchors_zero_fee_commitments(),
+	}
+}
+fn base_weight(c: &ChannelTypeFeatures) -> u128 {
+	if c.supports_anchors_zero_fee_htlc_tx() { 1124 } else { 724 }
+}
+fn fee_spec(feerate: u128, n: u128, c: &ChannelTypeFeatures) -> u128 {
+	feerate * (base_weight(c) + n * 172) / 1000
+}
+fn anchors_spec(c: &ChannelTypeFeatures) -> u128 {
+	if c.supports_anchors_zero_fee_htlc_tx() { 660 } else { 0 }
+}
+
+// u01/checked_sub_from_funder: exactly the funder's side decreases, Err <=> funder < v
+pub fn contract_checked_sub_from_funder(ob: bool, h: u64, c: u64, s: u64) -> Outcome {
+	match checked_sub_from_funder(ob, h, c, s) {
+		Ok((h2, c2)) => {
+			let ok = if ob { h >= s && h2 == h - s && c2 == c } else { c >= s && c2 == c - s && h2 == h };
+			if ok { Outcome::Holds } else { Outcome::Violated }
+		},
+		Err(()) => if (if ob { h < s } else { c < s }) { Outcome::Holds } else { Outcome::Violated },
+	}
+}
+
+// u01/has_output
+pub fn contract_has_output(ob: bool, h: u64, c: u64, feerate: u32, n: u16, dust: u64, kind: u8) -> Outcome {
+	if dust > 21_000_000_0000_0000 || n > 2000 {
+		return Outcome::Vacuous;
+	}
+	let t = ct(kind);
+	let r = has_output(ob, h, c, feerate, n as usize, dust, &t);
+	let fee = fee_spec(feerate as u128, n as u128, &t) * 1000;
+	let h2 = if ob { (h as u128).saturating_sub(fee) } else { h as u128 };
+	let c2 = if ob { c as u128 } else { (c as u128).saturating_sub(fee) };
+	let spec = !(h2 < dust as u128 * 1000 && c2 < dust as u128 * 1000 && n == 0 && !t.supports_anchor_zero_fee_commitments());
+	if r == spec { Outcome::Holds } else { Outcome::Violated }
+}
+
+fn mk_htlcs(a: &[(u64, bool)]) -> Vec<HTLCAmountDirection> {
+	a.iter().map(|(amt, ob)| HTLCAmountDirection { outbound: *ob, amount_msat: *amt }).collect()
+}
+
+// u01/get_next_commitment_stats: conservation -- every pending HTLC exactly once, funder pays anchors and fee
+pub fn contract_stats_conservation(
+	local: bool, ob: bool, cv: u64, vth: u64, h1: u64, o1: bool, h2: u64, o2: bool, h3: u64, o3: bool, nh: u8, addl: u8,
+	feerate: u32, spike: bool, dust: u64, kind: u8,
+) -> Outcome {
+	let t = ct(kind);
+	if cv > 21_000_000_0000_0000 || dust > 21_000_000_0000_0000 || addl > 2 || (t.supports_anchor_zero_fee_commitments() && feerate != 0) {
+		return Outcome::Vacuous;
+	}
+	let all = [(h1, o1), (h2, o2), (h3, o3)];
+	let n = (nh % 4) as usize;
+	let htlcs = mk_htlcs(&all[..n]);
+	let total: u128 = htlcs.iter().map(|h| h.amount_msat as u128).sum();
+	if total > 21_000_000_0000_0000_000 {
+		return Outcome::Vacuous;
+	}
+	match get_next_commitment_stats(local, ob, cv, vth, &htlcs, addl as usize, feerate, spike, None, dust, &t) {
+		Err(()) => Outcome::Holds,
+		Ok(st) => {
+			let sp: u128 = if spike && !t.supports_anchors_zero_fee_htlc_tx() { (feerate as u128 * 2).min(u32::MAX as u128) } else { feerate as u128 };
+			let nd = htlcs.iter().filter(|h| !h.is_dust(local, feerate, dust, &t)).count() as u128 + addl as u128;
+			let fee = fee_spec(sp, nd, &t);
+			let lhs = st.holder_balance_msat as u128 + st.counterparty_balance_msat as u128 + total + 1000 * anchors_spec(&t) + 1000 * fee;
+			let inn: u128 = htlcs.iter().filter(|h| !h.outbound).map(|h| h.amount_msat as u128).sum();
+			let out: u128 = htlcs.iter().filter(|h| h.outbound).map(|h| h.amount_msat as u128).sum();
+			let nonfunder_ok = if ob {
+				st.counterparty_balance_msat as u128 + inn + vth as u128 == cv as u128 * 1000
+			} else {
+				st.holder_balance_msat as u128 + out == vth as u128
+			};
+			if lhs == cv as u128 * 1000 && nonfunder_ok { Outcome::Holds } else { Outcome::Violated }
+		},
+	}
+}
+
+// u01 end-to-end (theorem_send_window_sound): an amount inside the reported window gives a valid next commitment
+// on both sides with the counterparty-selected reserve kept
+pub fn contract_send_window(
+	ob: bool, cv: u64, vth: u64, h1: u64, o1: bool, h2: u64, o2: bool, nh: u8, feerate: u32, hdust: u64, cdust: u64, cres: u64, hres: u64,
+	max_dust: u64, frac: u16, kind: u8,
+) -> Outcome {
+	let t = ct(kind);
+	if cv > 21_000_000_0000_0000 || cv == 0 || vth as u128 > cv as u128 * 1000 || hdust == 0 || cdust == 0 || hdust > 10_000_000 || cdust > 10_000_000
+		|| cres > cv || hres > cv || (t.supports_anchor_zero_fee_commitments() && feerate != 0)
+	{
+		return Outcome::Vacuous;
+	}
+	let all = [(h1, o1), (h2, o2)];
+	let htlcs = mk_htlcs(&all[..(nh % 3) as usize]);
+	let total: u128 = htlcs.iter().map(|h| h.amount_msat as u128).sum();
+	if total > cv as u128 * 1000 {
+		return Outcome::Vacuous;
+	}
+	let cc = ChannelConstraints {
+		holder_dust_limit_satoshis: hdust,
+		counterparty_selected_channel_reserve_satoshis: cres,
+		counterparty_dust_limit_satoshis: cdust,
+		holder_selected_channel_reserve_satoshis: hres,
+		counterparty_htlc_minimum_msat: 1,
+		counterparty_max_htlc_value_in_flight_msat: u64::MAX,
+		counterparty_max_accepted_htlcs: 483,
+	};
+	// the current state must be valid on both commitments (hypothesis of the theorem)
+	if get_next_commitment_stats(true, ob, cv, vth, &htlcs, 0, feerate, false, None, hdust, &t).is_err()
+		|| get_next_commitment_stats(false, ob, cv, vth, &htlcs, 0, feerate, false, None, cdust, &t).is_err()
+	{
+		return Outcome::Vacuous;
+	}
+	let b = get_available_balances(ob, cv, vth, &htlcs, feerate, None, max_dust, cc, &t);
+	let (lo, hi) = (b.next_outbound_htlc_minimum_msat.max(1), b.next_outbound_htlc_limit_msat);
+	if lo > hi {
+		return Outcome::Vacuous;
+	}
+	// pick an amount inside the window
+	let a = lo + ((hi - lo) as u128 * frac as u128 / 65535) as u64;
+	let mut with = mk_htlcs(&all[..(nh % 3) as usize]);
+	with.push(HTLCAmountDirection { outbound: true, amount_msat: a });
+	let l = get_next_commitment_stats(true, ob, cv, vth, &with, 0, feerate, false, None, hdust, &t);
+	let r = get_next_commitment_stats(false, ob, cv, vth, &with, 0, feerate, false, None, cdust, &t);
+	match (l, r) {
+		(Ok(l), Ok(r)) => {
+			if l.holder_balance_msat as u128 >= cres as u128 * 1000 && r.holder_balance_msat as u128 >= cres as u128 * 1000 {
+				Outcome::Holds
+			} else {
+				Outcome::Violated
+			}
+		},
+		_ => Outcome::Violated,
+	}
+}
+
+pub fn replay(name: &str, a: &[u128]) -> Option<Outcome> {
+	let b = |i: usize| a[i] != 0;
+	Some(match name {
+		"checked_sub_from_funder" => contract_checked_sub_from_funder(b(0), a[1] as u64, a[2] as u64, a[3] as u64),
+		"has_output" => contract_has_output(b(0), a[1] as u64, a[2] as u64, a[3] as u32, a[4] as u16, a[5] as u64, a[6] as u8),
+		"stats_conservation" => contract_stats_conservation(b(0), b(1), a[2] as u64, a[3] as u64, a[4] as u64, b(5), a[6] as u64, b(7), a[8] as u64, b(9),
+			a[10] as u8, a[11] as u8, a[12] as u32, b(13), a[14] as u64, a[15] as u8),
+		"send_window" => contract_send_window(b(0), a[1] as u64, a[2] as u64, a[3] as u64, b(4), a[5] as u64, b(6), a[7] as u8, a[8] as u32, a[9] as u64,
+			a[10] as u64, a[11] as u64, a[12] as u64, a[13] as u64, a[14] as u16, a[15] as u8),
+		// search-oriented entry points: raw random words are folded into the valid domain instead of being rejected
+		"stats_conservation_norm" => {
+			let cv = (a[2] % 21_000_000_0000_0000) as u64;
+			let cvm = cv as u128 * 1000;
+			let vth = (a[3] % (cvm + 1)) as u64;
+			let amt = |x: u128| (x % (cvm / 2 + 2)) as u64;
+			let kind = a[15] as u8;
+			let feerate = if kind % 3 == 2 { 0 } else { a[12] as u32 };
+			contract_stats_conservation(b(0), b(1), cv, vth, amt(a[4]), b(5), amt(a[6]), b(7), amt(a[8]), b(9), a[10] as u8, (a[11] % 3) as u8, feerate, b(13),
+				(a[14] % 100_000) as u64, kind)
+		},
+		"send_window_norm" => {
+			let cv = 1 + (a[1] % 16_777_215_000) as u64; // up to the non-wumbo cap x 1000
+			let cvm = cv as u128 * 1000;
+			let vth = (a[2] % (cvm + 1)) as u64;
+			let amt = |x: u128| (x % (cvm / 3 + 2)) as u64;
+			let kind = a[15] as u8;
+			let feerate = if kind % 3 == 2 { 0 } else { (a[8] % 200_000) as u32 };
+			contract_send_window(b(0), cv, vth, amt(a[3]), b(4), amt(a[5]), b(6), a[7] as u8, feerate, 1 + (a[9] % 3000) as u64, 1 + (a[10] % 3000) as u64,
+				(a[11] % (cv as u128 / 10 + 1)) as u64, (a[12] % (cv as u128 / 10 + 1)) as u64, a[13] as u64, a[14] as u16, kind)
+		},
+		_ => return None,
+	})
+}
+
+#[cfg(kani)]
+mod harnesses {
+	use super::*;
+	#[kani::proof]
+	fn h_checked_sub_from_funder() {
+		let o = contract_checked_sub_from_funder(kani::any(), kani::any(), kani::any(), kani::any());
+		kani::cover!(o == Outcome::Holds);
+		assert!(o != Outcome::Violated);
+	}
+}
